@@ -2,6 +2,7 @@
   C17 — Hyper-V VMCX/VMRS: the decoded tree equals the stored key/value tree.
 -/
 import HvProofs.HyperV
+import HvProofs.HyperVTree
 namespace Hv.C17
 open Hv Hv.HyperV Hv.Extracted.hyperv
 
@@ -186,6 +187,83 @@ theorem object_walk_terminates (f : File) : load f ≠ .error .nonTermination :=
 /-- **entry_loop_terminates**: the entry loop of a key table ends for every buffer and every declared size. -/
 theorem entry_loop_terminates (raw : Bytes) (size : Nat) : parseKeyTable raw size ≠ .error .nonTermination :=
   parseKeyTable_terminates raw size
+
+/-! ### (6) the tree assembly: fuel, stale tables, `tree_decode` -/
+
+/-- **tree_fuel_suffices**: for *every* list of links in which an entry reference (table index, offset) names one link —
+    arbitrary parent references, cycles, self-parents, orphans included — and every link `l` that is `d` parent steps
+    below the root, `treeOf` with fuel `fuel ≥ #links − d` never reports exhausted fuel: root paths cannot repeat a link
+    (depth is a function of the link, pigeonhole), cycles are unreachable from the root. -/
+theorem tree_fuel_suffices (f : File) (fos : List (Nat × Nat)) (links : List Link) (hu : UniqueRefs links)
+    (fuel d : Nat) (l : Link) (ha : Anc links d l) (hf : links.length ≤ fuel + d) :
+    treeOf f fos links fuel l ≠ .error .nonTermination :=
+  treeOf_fuel f fos links hu fuel d l ha hf
+
+/-- **links_have_unique_refs**: the links of every file that opens satisfy that hypothesis (one registry entry per
+    table index; strictly increasing entry offsets inside a table). -/
+theorem links_have_unique_refs (f : File) (L : Loaded) (h : openFile f = .ok L) : UniqueRefs L.links :=
+  (openFile_spec f).2 L h
+
+/-- **tree_assembly_terminates** (also a C11 obligation): for every file — any bytes, any parent references —
+    `as_dict()` and the typed walk of the model return or raise; the fuel `#links + 1` of `treeOf` is never exhausted,
+    nor is any other fuel of the model (headers, object tables, entry loops, linking). -/
+theorem tree_assembly_terminates (f : File) : asDict f ≠ .error .nonTermination ∧ typedTree f ≠ .error .nonTermination :=
+  asDict_terminates' f
+
+/-- **stale_tables_ignored**: whatever other tables were registered for an index — before or after, any number — as long
+    as they carry smaller sequence numbers, the table in use for that index (linking *and* parent lookups) is `t`. -/
+theorem stale_tables_ignored (ts act : List KeyTable) (h : ActiveOf ts act) (t : KeyTable) (ht : t ∈ act) :
+    activeTable (registerAll ts) t.index = some t :=
+  activeTable_of_act ts act h t ht
+
+/-- **stored_value_encodes**: a stored value entry (key ‖ NUL ‖ encoded value ‖ slack) is an `EncT` leaf with its key. -/
+theorem stored_value_encodes (f : File) (fos : List (Nat × Nat)) (all : List (Nat × Entry)) (i : Nat) (v : Value) (hv : v.inRange)
+    (pidx poff ck ins : Nat) (key slack : Bytes) (off : Nat) (hk : validUtf8 key = true) :
+    let e := (SEntry.keyed v.typ pidx poff ck ins key (encodeValue v ++ slack)).parsed off
+    EncT f fos all (.leaf v) (i, e) ∧ keyOf e = .ok key := by
+  intro e
+  have hkind := (kind_of_typ v e rfl).1
+  refine ⟨?_, keyOf_keyed _ _ _ _ _ key _ off hk⟩
+  simp only [EncT]
+  refine ⟨?_, valueOf_keyed f fos v hv pidx poff ck ins key slack off⟩
+  rw [hkind]
+  cases v <;> simp only [Value.typ] <;> decide
+
+/-- **tree_decode_loaded**: for *any* registry the object-table walk produced (`load f = ok reg`): if every linkable
+    entry of the active tables has a resolvable parent and a valid key and the root-level entries store the children
+    `cs` (`EncT`, recursively: any nesting depth, children of a node found by their parent reference in any table,
+    values inline or in file objects), then the typed walk returns `node cs`, and so does `as_dict()` when the root
+    children are nodes. Proved by (mutual) induction on the tree. -/
+theorem tree_decode_loaded (f : File) (reg : Reg) (hload : load f = .ok reg) (hne : ∀ p ∈ reg.keyTables, p.2 ≠ [])
+    (cs : List (Bytes × Tree)) (hlink : Linkable reg.keyTables (allEntries reg.keyTables)) (hnd : (cs.map Prod.fst).Nodup)
+    (henc : EncT.EncL f reg.fileObjects (allEntries reg.keyTables) cs ((allEntries reg.keyTables).filter (fun x => pref x.2 = none))) :
+    typedTree f = .ok (.node cs) ∧ ((∀ kt ∈ cs, ∃ cs', kt.2 = .node cs') → asDict f = .ok (.node cs)) :=
+  Hv.HyperV.tree_decode_loaded f reg hload hne cs hlink hnd henc
+
+/-- **tree_decode_partial_registry** — `Encodes lay cs f → decode f = ok (node cs)` for layouts with any number of key
+    tables, entries distributed over them, parents referenced by (table index, offset) through the table *in use* for
+    that index, any number of stale competitors with lower sequence numbers registered before or after, free entries,
+    unreachable (orphan / cyclic) entries, inline and file-object values.
+    Full statement aimed at (DESIGN A.4): `Encodes` over the *bytes* of the file. What is proved: `Encodes` whose first
+    clause is stated on the model's object-table walk — "`load f` registers exactly the tables `lay.tables` in this order
+    and the File objects `lay.fos`" — instead of on header / object-table bytes. Missing: the lemma
+    `bytes of headers + object tables ⇒ load f = ok ⟨registerAll tables, fos⟩` (the per-table and per-entry byte level
+    is `tree_decode_partial`, `entry_walk`, `stored_value_encodes`, `file_object_value`; the walk itself is covered by
+    `object_walk_terminates`, the kernel-evaluated example and the correspondence incl. second object tables). -/
+theorem tree_decode_partial_registry (lay : Layout) (cs : List (Bytes × Tree)) (f : File) (h : Encodes lay cs f) :
+    typedTree f = .ok (.node cs) ∧ ((∀ kt ∈ cs, ∃ cs', kt.2 = .node cs') → asDict f = .ok (.node cs)) :=
+  tree_decode_encodes lay cs f h
+
+/-! non-vacuity of `Encodes` on the example file below (second header active, stale copy of table 1 registered *after*
+    the active one, file object): the first clause (what `load` registers), `ActiveOf`, and the shape of the linkable
+    entries (1 root entry, 5 children of (1, 10) spread over two tables); the decoded tree itself is `exCheck`. -/
+example : (match load exFile with
+    | .ok reg => decide (reg.keyTables = registerAll exTs) && decide (reg.fileObjects = [(0x7000, 0x1000)])
+    | .error _ => false) = true := by decide +kernel
+example : exAct.map KeyTable.index = firstIdx (exTs.map KeyTable.index) ∧
+    ∀ t ∈ exAct, t ∈ exTs ∧ ∀ u ∈ exTs, u.index = t.index → u = t ∨ u.seq < t.seq := by decide +kernel
+example : (actEntries exAct).length = 6 ∧ ((actEntries exAct).filter (fun x => pref x.2 = none)).length = 1 ∧
+    ((actEntries exAct).filter (fun x => pref x.2 = some (1, 10))).length = 5 := by decide +kernel
 
 /-! non-vacuity: a concrete file written with the specification-side encoders — second header active (higher sequence
     number), an object table listing the active table of index 1 (sequence 5) *before* a stale copy (sequence 1, same
